@@ -25,6 +25,12 @@ var altAtoms = []altAtom{
 	{`a\.b`, "a.b"}, {"a.*", "axx"}, {"ab?", "a"},
 }
 
+// alternatives that begin and end with a class, or contain an escaped backslash / bar / parenthesis
+var altAtomsTextual = []altAtom{
+	{"[ab]", "a"}, {"[cd]", "d"}, {"[0-9]x[0-9]", "1x2"}, {"[v]al[1-3]", "val2"},
+	{`a\\`, `a\`}, {`\\b`, `\b`}, {`a\|b`, "a|b"}, {`c\|`, "c|"}, {`\(a\)`, "(a)"}, {`\[b\]`, "[b]"},
+}
+
 // how one alternative is written
 func wrapAlt(kind int, text string) string {
 	switch kind {
@@ -45,10 +51,15 @@ func genAlternation(r *Rand) accountPart {
 	if r.Chance(1, 3) {
 		n = 3
 	}
-	perm := r.Perm(len(altAtoms))
+	pool := altAtoms
+	textual := r.Chance(4, 10)
+	if textual {
+		pool = altAtomsTextual
+	}
+	perm := r.Perm(len(pool))
 	atoms := make([]altAtom, 0, n)
 	for i := 0; i < n; i++ {
-		atoms = append(atoms, altAtoms[perm[i]])
+		atoms = append(atoms, pool[perm[i]])
 	}
 	// which alternatives are groups
 	kinds := make([]int, n)
@@ -59,7 +70,11 @@ func genAlternation(r *Rand) accountPart {
 	if r.Chance(1, 12) {
 		g = 3
 	}
-	switch k := r.Intn(100); {
+	k := r.Intn(100)
+	if textual && r.Chance(3, 4) {
+		k = 99 // the classes / escapes are what the part begins and ends with
+	}
+	switch {
 	case k < 45: // a group per alternative: (a)|(b)
 		for i := range kinds {
 			kinds[i] = g
@@ -142,4 +157,27 @@ func groupedWalletPart(r *Rand, a, b string) string {
 	default:
 		return wrapAlt(g, a) + "|" + wrapAlt(g, b)
 	}
+}
+
+// swapCase changes the case of the first letter of the text (the text itself when it has none).
+func swapCase(s string) string {
+	for i := 0; i < len(s); i++ {
+		c := s[i]
+		switch {
+		case c >= 'a' && c <= 'z':
+			return s[:i] + string(c-32) + s[i+1:]
+		case c >= 'A' && c <= 'Z':
+			return s[:i] + string(c+32) + s[i+1:]
+		}
+	}
+	return s
+}
+
+// blank puts a space in front of or behind a specifier part (a part is used as written: neither
+// manager trims it).
+func blank(r *Rand, part string) string {
+	if r.Bool() {
+		return " " + part
+	}
+	return part + " "
 }
